@@ -113,10 +113,22 @@ func (ps *PrintState) Print(str ...string) *PrintState {
 		ps.IndentationDone = true
 	}
 	for _, s := range str {
+		if ps.Compact && glued(ps.last, s) {
+			_, _ = ps.Out.Write([]byte{' '}) // a - -b must not become a--b (nor a + +b a++b).
+		}
 		_, _ = ps.Out.Write([]byte(s))
 		ps.last = s
 	}
 	return ps
+}
+
+// glued tells whether writing next directly after last would make the lexer read `--` or `++` across the two.
+func glued(last, next string) bool {
+	if last == "" || next == "" {
+		return false
+	}
+	c := next[0]
+	return (c == '-' || c == '+') && last[len(last)-1] == c
 }
 
 // --- AST nodes
